@@ -110,6 +110,7 @@ class IndiMessage:
         return other.__class__ == self.__class__ and self.to_dict() == other.to_dict()
 
 
+@IndiMessage.register_message
 class Message(IndiMessage):
     from_device = True
 
